@@ -95,10 +95,17 @@ def r16a(P, R):
                     "the `{` arm is not conditional on the previous `$`", loc=jw.loc())
     # the `$` flag is recomputed from the current character alone (`$$` followed by `{` must still be escaped)
     pvj = Prov(jw)
-    flag_assigns = [n for n in jw.walk() if n.get("k") == "Assign" and n["l"].get("k") == "Path" and n["l"].get("name") == "dollar_flag"]
+    flag_ids = set()
+    for m in ms:
+        for lits, guard, catch, arm in lit_table(m):
+            if "{" in lits:
+                for i_ in subnodes(arm["body"]):
+                    if i_.get("k") == "If" and i_["cond"].get("k") == "Path" and "local" in i_["cond"]:
+                        flag_ids.add(i_["cond"]["local"])
+    flag_assigns = [n for n in jw.walk() if n.get("k") == "Assign" and n["l"].get("k") == "Path" and n["l"].get("local") in flag_ids]
     R.floor("R16-a", "dollar-flag updates", len(flag_assigns), 1)
     for n in flag_assigns:
-        refs = [x for x in subnodes(n["r"]) if x.get("k") == "Path" and x.get("name") == "dollar_flag"]
+        refs = [x for x in subnodes(n["r"]) if x.get("k") == "Path" and x.get("local") in flag_ids]
         lits = [x.get("v") for x in subnodes(n["r"]) if x.get("k") == "Lit"]
         R.check("R16-a", "js-template:dollar-flag-update", not refs and lits == ["$"],
                 "flag := (c == '$'), independent of its previous value",
